@@ -73,6 +73,8 @@ fn check_state(w: &Window<L>, m: &VecDeque<L>, full: bool, rng: &mut Rng, r: &mu
 		s.retain(|x| *x <= P::MAX as u64);
 		idxs = s;
 	}
+	// indices beyond the PeriodType cannot be expressed (n + 2 = 256 for n = 254 with u8 would wrap to 0 in the cast below)
+	idxs.retain(|x| *x <= P::MAX as u64);
 	for &i in &idxs {
 		let ip = i as P;
 		let g = guard(|| w.get(ip).copied());
